@@ -8,7 +8,15 @@
 //!   the `Debug` name of every other token kind (`StructKeyword`, `LeftParenthesis`, `DoubleColon`, …),
 //!   `E:UnknownSymbol:<hex symbol>:<hex suggestion | ~>`, `E:UnterminatedStringLiteral`, `E:UnterminatedBlockComment`.
 //! The whole iterator output is compared, i.e. also what the lexer returns *after* an error (the parser itself stops at
-//! the first one). Locations are not compared here (C09).
+//! the first one). Locations are not compared by `lex` (C02).
+//!
+//!   lexloc <fam> <text hex> <expected>      (C09, stream `C09lex`)
+//! the same stream WITH the locations every token / error is returned with (Model/SliceLexerLoc.lean `lexRunLoc`):
+//! every element is `<token as above>@<start row>.<start col>-<end row>.<end col>`.
+//! Oracle on the lexer's output alone: rows / columns are 1-based, start <= end, elements do not overlap and are in
+//! source order, and the characters between start and end (rows split at LF, columns counted in characters) are the
+//! token's spelling: the text of an integer literal, `"` + text + `"` of a string literal, the text of an identifier
+//! with or without a leading backslash, the text of a doc comment (plus a CR that was stripped) preceded by `///`.
 
 use crate::codec::CaseResult;
 use crate::dynval::unhex;
@@ -52,6 +60,89 @@ pub fn run_lex(text: &str, expected: &str) -> CaseResult {
     let (act, oracle): (Vec<String>, Option<String>) = match r {
         Err(_) => (vec!["panic".to_string()], Some("the Slice lexer panicked".to_string())),
         Ok(items) => (items.into_iter().map(|it| match it { Ok((t, _)) => t, Err((e, _)) => e }).collect(), None),
+    };
+    let actual = act.join(" ");
+    let diff = if act != exp { Some(crate::compile::short_diff(&exp.join(" "), &actual)) } else { None };
+    CaseResult { nontrivial: act.len() > 2, actual, diff, oracle }
+}
+
+/// index (in characters) of a 1-based location when rows are split at LF and every other character is one column
+fn char_index(chars: &[char], row: usize, col: usize) -> Option<usize> {
+    if row == 0 || col == 0 { return None; }
+    let (mut r, mut c) = (1usize, 1usize);
+    for (i, ch) in chars.iter().enumerate() {
+        if r == row && c == col { return Some(i); }
+        if *ch == '\n' { r += 1; c = 1; } else { c += 1; }
+    }
+    if r == row && c == col { Some(chars.len()) } else { None }
+}
+
+/// the property's own predicate on one returned element
+fn check_extent(chars: &[char], dbg: &str, l: (usize, usize, usize, usize), prev_end: (usize, usize)) -> Option<String> {
+    let (sr, sc, er, ec) = l;
+    if (sr, sc) > (er, ec) { return Some(format!("{dbg}: start {sr}:{sc} after end {er}:{ec}")); }
+    if (sr, sc) < prev_end { return Some(format!("{dbg}: starts at {sr}:{sc}, before the end of the previous element {}:{}", prev_end.0, prev_end.1)); }
+    let (Some(i), Some(j)) = (char_index(chars, sr, sc), char_index(chars, er, ec)) else {
+        return Some(format!("{dbg}: location {sr}:{sc}-{er}:{ec} is not a position of the text"));
+    };
+    let slice: String = chars[i..j].iter().collect();
+    let payload = |name: &str| -> Option<String> {
+        let inner = dbg.strip_prefix(name)?.strip_prefix('(')?.strip_suffix(')')?;
+        // undo `{:?}` of a &str: the harness only needs equality with a re-quoted candidate
+        Some(inner.to_string())
+    };
+    let q = |t: &str| format!("{:?}", t);
+    if let Some(p) = payload("IntegerLiteral") {
+        if q(&slice) != p { return Some(format!("{dbg}: the text at {sr}:{sc}-{er}:{ec} is {:?}", slice)); }
+    } else if let Some(p) = payload("StringLiteral") {
+        let ok = slice.len() >= 2 && slice.starts_with('"') && slice.ends_with('"') && q(&slice[1..slice.len() - 1]) == p;
+        if !ok { return Some(format!("{dbg}: the text at {sr}:{sc}-{er}:{ec} is {:?}", slice)); }
+    } else if let Some(p) = payload("Identifier") {
+        let ok = q(&slice) == p || (slice.starts_with('\\') && q(&slice[1..]) == p);
+        if !ok { return Some(format!("{dbg}: the text at {sr}:{sc}-{er}:{ec} is {:?}", slice)); }
+    } else if let Some(p) = payload("DocComment") {
+        let ok = q(&slice) == p || (slice.ends_with('\r') && q(&slice[..slice.len() - 1]) == p);
+        let slashes = i >= 3 && chars[i - 3..i].iter().all(|c| *c == '/');
+        if !ok || !slashes { return Some(format!("{dbg}: the text at {sr}:{sc}-{er}:{ec} is {:?} (preceded by ///: {slashes})", slice)); }
+    } else if PLAIN_KINDS.contains(&dbg) && (slice.is_empty() || slice.chars().any(|c| c.is_whitespace())) {
+        return Some(format!("{dbg}: the text at {sr}:{sc}-{er}:{ec} is {:?}", slice));
+    }
+    None
+}
+
+pub fn run_lexloc(text: &str, expected: &str) -> CaseResult {
+    let bad = |why: &str| CaseResult { actual: "bad-case".into(), diff: Some(why.to_string()), oracle: None, nontrivial: false };
+    let Some(input) = unhex(text).and_then(|b| String::from_utf8(b).ok()) else { return bad("undecodable text") };
+    let one = |e: &str| -> Option<String> {
+        let (t, l) = e.rsplit_once('@')?;
+        let (a, b) = l.split_once('-')?;
+        let (sr, sc) = a.split_once('.')?;
+        let (er, ec) = b.split_once('.')?;
+        let n = |x: &str| x.parse::<usize>().ok();
+        Some(format!("{}@{}.{}-{}.{}", debug_of(t)?, n(sr)?, n(sc)?, n(er)?, n(ec)?))
+    };
+    let exp: Option<Vec<String>> = if expected == "-" { Some(vec![]) } else { expected.split(',').map(one).collect() };
+    let Some(exp) = exp else { return bad("undecodable expected tokens") };
+    let r = catch_unwind(AssertUnwindSafe(|| verif_hooks::lex_slice(&input)));
+    let (act, oracle): (Vec<String>, Option<String>) = match r {
+        Err(_) => (vec!["panic".to_string()], Some("the Slice lexer panicked".to_string())),
+        Ok(items) => {
+            let chars: Vec<char> = input.chars().collect();
+            let mut oracle = None;
+            let mut prev_end = (1usize, 1usize);
+            let mut out = Vec::new();
+            for it in items {
+                let (is_tok, (d, l)) = match it { Ok(x) => (true, x), Err(x) => (false, x) };
+                if oracle.is_none() {
+                    oracle = if is_tok { check_extent(&chars, &d, l, prev_end) }
+                             else if (l.0, l.1) > (l.2, l.3) || (l.0, l.1) < prev_end { Some(format!("{d}: error span {l:?} out of order")) }
+                             else { None };
+                }
+                prev_end = (l.2, l.3);
+                out.push(format!("{}@{}.{}-{}.{}", d, l.0, l.1, l.2, l.3));
+            }
+            (out, oracle)
+        }
     };
     let actual = act.join(" ");
     let diff = if act != exp { Some(crate::compile::short_diff(&exp.join(" "), &actual)) } else { None };
